@@ -7,3 +7,15 @@ func TestSelf1D(t *testing.T) {
 		t.Fatal(err)
 	}
 }
+
+func TestSelfQR(t *testing.T) {
+	if err := SelfTestQR(); err != nil {
+		t.Fatal(err)
+	}
+}
+
+func TestSelfDM(t *testing.T) {
+	if err := SelfTestDM(); err != nil {
+		t.Fatal(err)
+	}
+}
